@@ -291,3 +291,72 @@ Definition classify_fetch (items : str) (e : fenv) : option finding :=
           else if contains (to_upper items) (S_ "ENVELOPE") then classify_headers (e_msg e) else None
       end
   end.
+
+(** ---- requests as a client writes them (RFC 3501 fetch-att) ---- *)
+Inductive section :=
+| S_All | S_Text | S_Header
+| S_Fields (names : list str)
+| S_Part (path : str) (mime : bool).
+
+Inductive fitem :=
+| I_Simple (name : str)     (* UID FLAGS INTERNALDATE RFC822.SIZE ENVELOPE BODYSTRUCTURE BODY RFC822 RFC822.HEADER RFC822.TEXT *)
+| I_Sec (peek : bool) (sec : section) (partial : option (nat * nat)).
+
+Definition sec_text (s : section) : str :=
+  match s with
+  | S_All => []
+  | S_Text => S_ "TEXT"
+  | S_Header => S_ "HEADER"
+  | S_Fields ns => S_ "HEADER.FIELDS (" ++ join ns [SP] ++ [RP]
+  | S_Part p m => p ++ (if m then S_ ".MIME" else [])
+  end.
+
+Definition render_item (it : fitem) : str :=
+  match it with
+  | I_Simple n => n
+  | I_Sec peek s part =>
+      (if peek then S_ "BODY.PEEK[" else S_ "BODY[") ++ sec_text s ++ ["]"] ++
+      match part with Some (a, b) => ["<"] ++ dec a ++ ["."] ++ dec b ++ [">"] | None => [] end
+  end.
+
+(** the name under which RFC 3501 requires the item to be answered *)
+Definition expected_name (it : fitem) : str :=
+  match it with
+  | I_Simple n => n
+  | I_Sec _ s part =>
+      S_ "BODY[" ++ to_upper (sec_text s) ++ ["]"] ++
+      match part with Some (a, _) => ["<"] ++ dec a ++ [">"] | None => [] end
+  end.
+
+Definition render_req (req : list fitem) : str :=
+  [LP] ++ join (map render_item req) [SP] ++ [RP].
+
+Definition count_name (n : str) (plan : list out) : nat :=
+  length (filter (fun o => str_eqb (to_upper (fst (pair_of o))) (to_upper n)) plan).
+
+(** every requested item is contributed exactly once under its own name *)
+Definition answered (req : list fitem) (plan : list out) : bool :=
+  forallb (fun it => Nat.eqb (count_name (expected_name it) plan) 1) req.
+
+Definition is_simple (n : string) (it : fitem) : bool :=
+  match it with I_Simple m => str_eqb m (S_ n) | _ => false end.
+Definition has_partial (it : fitem) : bool :=
+  match it with I_Sec _ _ (Some _) => true | _ => false end.
+Definition is_fields (it : fitem) : bool :=
+  match it with I_Sec _ (S_Fields _) _ => true | _ => false end.
+
+(** request shapes with a known answer defect *)
+Definition classify_req (req : list fitem) : option finding :=
+  let bodyish it := match it with
+                    | I_Sec _ _ _ => true
+                    | I_Simple m => str_eqb m (S_ "BODYSTRUCTURE") end in
+  if existsb (is_simple "BODY") req && existsb bodyish req then Some item_suppressed
+  else if existsb (is_simple "RFC822") req
+          && existsb (fun it => is_simple "RFC822.SIZE" it || is_simple "RFC822.HEADER" it
+                                || is_simple "RFC822.TEXT" it) req then Some item_suppressed
+  else if existsb (fun it => match it with I_Sec _ S_Header _ => true | _ => false end) req
+          && existsb is_fields req then Some item_suppressed
+  else if Nat.ltb 1 (length (filter is_fields req)) then Some item_suppressed
+  else if existsb (is_simple "RFC822") req then Some rfc822_renamed
+  else if existsb has_partial req then Some partial_range
+  else None.
